@@ -100,6 +100,7 @@ type Term struct {
 type Ctx struct {
 	tab  map[string]*Term
 	next int
+	vars map[int]map[int]bool
 	True, False *Term
 }
 
@@ -111,6 +112,94 @@ func NewCtx() *Ctx {
 }
 
 func (c *Ctx) NumTerms() int { return c.next }
+
+// Vars returns the set of variable IDs occurring in t (memoised).
+func (c *Ctx) Vars(t *Term) map[int]bool {
+	if c.vars == nil {
+		c.vars = map[int]map[int]bool{}
+	}
+	if v, ok := c.vars[t.ID]; ok {
+		return v
+	}
+	var out map[int]bool
+	switch {
+	case t.Op == OpVar:
+		out = map[int]bool{t.ID: true}
+	case len(t.Args) == 1:
+		out = c.Vars(t.Args[0])
+	default:
+		for _, a := range t.Args {
+			av := c.Vars(a)
+			if len(av) == 0 {
+				continue
+			}
+			if out == nil {
+				out = av
+				continue
+			}
+			// copy on first merge
+			merged := false
+			for k := range av {
+				if !out[k] {
+					if !merged {
+						n := make(map[int]bool, len(out)+len(av))
+						for kk := range out {
+							n[kk] = true
+						}
+						out = n
+						merged = true
+					}
+					out[k] = true
+				}
+			}
+		}
+	}
+	c.vars[t.ID] = out
+	return out
+}
+
+// Slice returns the conjuncts of pc that are (transitively) connected to the
+// query terms through shared variables.
+func (c *Ctx) Slice(pc []*Term, query ...*Term) []*Term {
+	need := map[int]bool{}
+	for _, q := range query {
+		for v := range c.Vars(q) {
+			need[v] = true
+		}
+	}
+	used := make([]bool, len(pc))
+	changed := true
+	for changed {
+		changed = false
+		for i, p := range pc {
+			if used[i] {
+				continue
+			}
+			pv := c.Vars(p)
+			hit := false
+			for v := range pv {
+				if need[v] {
+					hit = true
+					break
+				}
+			}
+			if hit {
+				used[i] = true
+				changed = true
+				for v := range pv {
+					need[v] = true
+				}
+			}
+		}
+	}
+	var out []*Term
+	for i, p := range pc {
+		if used[i] {
+			out = append(out, p)
+		}
+	}
+	return out
+}
 
 func (c *Ctx) mk(t *Term) *Term {
 	var sb strings.Builder
